@@ -246,7 +246,7 @@ def run(tier, seed):
     t0 = time.time()
     out = vlib.replay(ENGINE, scen, env={"PRUNE_DIR_EVERY": str(dir_every)}, timeout=60)
     vlib.log("replayed %d scenarios in %.1fs" % (out.total, time.time() - t0))
-    if out.total != n_scn and not out.errors:
+    if out.total != n_scn and not out.errors and not out.truncated:
         raise vlib.Inconclusive("replayed %d of %d scenarios" % (out.total, n_scn))
     absorb(v, out, scen)
     bad = set([i for i, _, _ in out.failures] + [i for i, _ in out.crashes] + list(out.timeouts))
